@@ -44,7 +44,9 @@ def acc_real(state):
             return z3.IntVal(sg.MISSING)
         return z3.IntVal(sg.TS.get(nodes[n][0], sg.UNSUPPORTED))
 
-    return Acc(lambda n: z3.BoolVal(n in nodes), typ, lambda n: z3.BoolVal(n in nodes and bool(nodes[n][1])), lambda u, v: z3.BoolVal((u, v) in edges))
+    a = Acc(lambda n: z3.BoolVal(n in nodes), typ, lambda n: z3.BoolVal(n in nodes and bool(nodes[n][1])), lambda u, v: z3.BoolVal((u, v) in edges))
+    a.concrete = True
+    return a
 
 
 class Outcome:
@@ -89,6 +91,8 @@ def run(ctx, tag, U, vars_, pre, bbs, op, posts, split=(0, 0), conf_every=1, det
     def mkbbs():
         return {k: cg.BlackBox("bbtype_" + k, list(v[0]), list(v[1])) for k, v in bbs.items()}
 
+    preA = acc_pre(vars_)
+
     def body(o, owns):
         g = sg.SymDiGraph(o, U, vars_)
         c = cg.Circuit(name="sym", graph=g, blackboxes=mkbbs())
@@ -98,7 +102,7 @@ def run(ctx, tag, U, vars_, pre, bbs, op, posts, split=(0, 0), conf_every=1, det
         ctx.count("paths")
         ctx.count(f"outcome:{out.kind}:{out.exc or ''}")
         names = g.names()
-        preA, postA = acc_pre(vars_), acc_sym(g)
+        postA = acc_sym(g)
         for name, formula, sig, what in posts(preA, postA, out, names, c):
             ctx.r["obligations"] += 1
             m = o.check_post(z3.Not(formula))
